@@ -1,5 +1,227 @@
-"""C11, OUTPUT2 part (filled in later in this round)."""
+"""C11, OUTPUT2 part.  specs/Op2.tla: token grammar (keys / records), encoder for matrix and table data blocks with
+columns / records split into arbitrary physical parts, and the reader automaton at token level; TLC checks that the
+directory tiles the file and that positioned reads decode what was encoded, and exports every small file.  Each is
+rendered by the neutral renderer (harness/phys_op2.py) in every physical variant (byte order x 32/64-bit x
+single/double x real/complex x with/without file label) and read with OP2.directory, rdop2mats, set_position +
+rdop2nt + rdop2matrix / rdop2record / rdop2tabheaders.  Shipped op2 files are tokenised and their block structure
+compared with directory()."""
+import glob
+import os
+import struct
+import tempfile
+
+from . import tlc
+from . import phys_op2 as P2
+from .runner import REPO
+
+NROWS = 3
+
+
+def chars(name, ib):
+    b = name.encode().ljust(8)
+    if ib == 8:
+        return b[:4] + b"    " + b[4:] + b"    "
+    return b
+
+
+def instantiate(blocks, toks, v, rng):
+    """token stream with tags -> (bytes tokens, expectation dict, token index -> byte offset)"""
+    E, ib, mtype = v["endian"], v["ib"], v["mtype"]
+    ik = "q" if ib == 8 else "i"
+    cplx = mtype > 2
+    single = bool(mtype & 1)
+    rk, rb = ("f", 4) if (single and ib == 4) else ("d", 8)
+    out = []
+    exp = {"names": [], "mats": {}, "recs": {}, "kinds": []}
+    header = []
+    if v["label"]:
+        header = [("K", 3), ("R", struct.pack(E + "3" + ik, 9, 27, 26)), ("K", 7),
+                  ("R", b"NASTRAN FORT TAPE ID CODE - " if ib == 4 else b"NAST    RAN     FORT     TAP    E ID     COD    E -     "),
+                  ("K", 2), ("R", chars("XXXXXXXX", ib)), ("K", -1), ("K", 0)]
+    names = {}
+    for i, b in enumerate(blocks, 1):
+        names[i] = ("MX%d" % i) if b["kind"] == "m" else ("TB%d" % i)
+        exp["names"].append(names[i])
+        exp["kinds"].append(1 if b["kind"] == "m" else 0)
+        if b["kind"] == "m":
+            import numpy as np
+            exp["mats"][names[i]] = np.zeros((NROWS, len(b["cols"])), complex if cplx else float)
+        else:
+            exp["recs"][names[i]] = [[] for _ in b["recs"]]
+    pending_key = None
+    for t in toks:
+        if t[0] == "K":
+            out.append(["K", t[1]])
+            continue
+        tag = t[2]
+        kind = tag[0]
+        if kind in ("name", "name2"):
+            out.append(["R", chars(names[tag[1]], ib)])
+        elif kind == "trailer":
+            i = tag[1]
+            b = blocks[i - 1]
+            if b["kind"] == "m":
+                tr = (100 + i, len(b["cols"]), NROWS, 2, mtype, 0, 0)
+            else:
+                tr = (100 + i, 0, 0, 0, 0, 0, 0)
+            out.append(["R", struct.pack(E + "7" + ik, *tr)])
+        elif kind == "str":
+            _, i, c, r0, n = tag
+            vals = []
+            for k in range(n):
+                re_ = float(rng.integers(-8, 9)) * 0.25 + (0.0 if single else 1e-13)
+                im_ = float(rng.integers(-8, 9)) * 0.5
+                if single and ib == 4:
+                    re_ = struct.unpack("f", struct.pack("f", re_))[0]
+                if cplx:
+                    vals += [re_, im_]
+                    exp["mats"][names[i]][r0 - 1 + k, c - 1] = complex(re_, im_)
+                else:
+                    vals.append(re_)
+                    exp["mats"][names[i]][r0 - 1 + k, c - 1] = re_
+            payload = struct.pack(E + ik, r0) + struct.pack(E + "%d%s" % (len(vals), rk), *vals)
+            # the key in front of a string = number of words of values in the record
+            out[-1][1] = (len(payload) - ib) // ib if (len(payload) - ib) % ib == 0 else max(1, (len(payload) - ib) // ib)
+            out.append(["R", payload])
+        elif kind == "part":
+            _, i, r, k = tag
+            nw = 3 * t[1]      # at least three words per part: rdop2tabheaders reads a 3-word record header
+            ints = [int(x) for x in rng.integers(-1000, 1000, nw)]
+            exp["recs"][names[i]][r - 1] += ints
+            exp.setdefault("parts", {}).setdefault(names[i], []).append((ints[:3], nw * ib))
+            out[-1][1] = nw
+            out.append(["R", struct.pack(E + "%d%s" % (nw, ik), *ints)])
+        else:
+            raise RuntimeError("unknown tag %r" % (tag,))
+    toksb = header + [tuple(x) for x in out] + ([("K", 0)] if v.get("eof") else [])
+    # byte offsets of token starts (for the directory comparison)
+    offs = []
+    pos = 0
+    for kd, val in toksb:
+        offs.append(pos)
+        pos += 8 + (ib if kd == "K" else len(val))
+    offs.append(pos)
+    if v.get("eof"):
+        offs[-1] = offs[-2]
+    return toksb, exp, offs, len(header)
 
 
 def run_op2(run):
-    return
+    import numpy as np
+    import warnings
+    warnings.simplefilter("ignore")
+    from pyyeti.nastran import op2
+
+    res = tlc.run("Op2", "MC_Op2.cfg", timeout=900)
+    if res.violation:
+        run.add_tlc("MC_Op2.cfg", res)
+        run.violation("TLC: %s on the Op2 model" % res.violation, {"tlc": res.error_text()}, {"where": "model"})
+        return
+    run.add_tlc("MC_Op2.cfg", res, "invariants DirTiles DecodeOK over all files of <= 2 blocks (12 matrix x 7 table block shapes)")
+    files = res.tagged("OP2")
+    rng = np.random.default_rng(run.seed)
+    variants = [dict(endian=e, ib=ib, mtype=mt, label=lab) for e in ("<", ">") for ib in (4, 8) for mt in (1, 2, 3, 4) for lab in (False, True)]
+    for k, v in enumerate(variants):
+        v["eof"] = bool((k // 2) % 2)          # end-of-file key present / absent
+    quick = run.tier == "quick"
+    for fi, (blocks, toks, D) in enumerate(files):
+        vs = [variants[(fi + 7 * k) % len(variants)] for k in range(2 if quick else len(variants))] if quick else variants
+        for v in vs:
+            toksb, exp, offs, nh = instantiate(blocks, toks, v, rng)
+            data = P2.render(toksb, v["endian"], v["ib"])
+            fd, path = tempfile.mkstemp(suffix=".op2", prefix="verif_")
+            os.write(fd, data)
+            os.close(fd)
+            case = {"blocks": blocks, "variant": v}
+            run.case((fi, str(v)), nontrivial=any(len(x) > 1 for b in blocks for x in (b.get("cols") or b.get("recs"))), part="op2 rendered")
+            msg = None
+            try:
+                o2 = op2.OP2(path)
+                try:
+                    o2.directory(verbose=False)
+                    if list(o2.names) != exp["names"]:
+                        msg = "directory names %r, encoded %r" % (o2.names, exp["names"])
+                    want = [(offs[nh + d[0] - 1], offs[nh + d[1] - 1], d[2]) for d in D]
+                    got = [(int(a), int(b), int(t)) for a, b, t in zip(o2.dbstarts, o2.dbstops, o2.dbtypes)]
+                    if msg is None and got != want:
+                        msg = "directory byte ranges/types %r, spec %r" % (got, want)
+                    if msg is None:
+                        for nm, sns in zip(o2.names, o2.dblist):
+                            if sns.dbtype == 1 and tuple(sns.size) != exp["mats"][nm].shape:
+                                msg = "directory size of %s is %r" % (nm, sns.size)
+                    if msg is None:
+                        mats = o2.rdop2mats()
+                        for nm, M in exp["mats"].items():
+                            if nm not in mats or mats[nm].shape != M.shape or not np.array_equal(mats[nm], M):
+                                msg = "rdop2mats: matrix %s differs from the encoded one" % nm
+                    # positioned reads in reverse file order
+                    if msg is None:
+                        for nm, kind in reversed(list(zip(exp["names"], exp["kinds"]))):
+                            o2.set_position(nm)
+                            name, trailer, dbtype = o2.rdop2nt()
+                            if name != nm or dbtype != kind:
+                                msg = "rdop2nt after set_position(%s) returned %r type %r" % (nm, name, dbtype)
+                                break
+                            if kind == 1:
+                                M = o2.rdop2matrix(trailer)
+                                if not np.array_equal(M, exp["mats"][nm]):
+                                    msg = "positioned rdop2matrix(%s) differs" % nm
+                                    break
+                            else:
+                                recs = []
+                                while True:
+                                    r = o2.rdop2record()
+                                    if r is None:
+                                        break
+                                    recs.append([int(x) for x in r])
+                                if recs != exp["recs"][nm]:
+                                    msg = "rdop2record: logical records of %s (multi-part records joined) differ from the encoded ones" % nm
+                                    break
+                                o2.set_position(nm)
+                                o2.rdop2nt()
+                                hd = o2.rdop2tabheaders()
+                                pe = exp["parts"][nm]    # one entry per PHYSICAL record: (first three words, record length)
+                                if len(hd) != len(pe) or any(list(h[0]) != e[0] or h[1] != e[1] for h, e in zip(hd, pe)):
+                                    msg = "rdop2tabheaders of %s: %r" % (nm, hd)
+                                    break
+                            pos_after = o2._fileh.tell()
+                            stop = [b for a, b, t in got if True][exp["names"].index(nm)]
+                            if pos_after != stop:
+                                msg = "after reading %s the reader is at byte %d, next block starts at %d" % (nm, pos_after, stop)
+                                break
+                finally:
+                    o2._fileh.close()
+            except Exception as ex:
+                msg = "OP2 reader raised %r" % ex
+            finally:
+                os.unlink(path)
+            run.trace_validated()
+            if msg:
+                run.violation("OP2 reader: " + msg, case, {"kind": "op2"})
+                if len([x for x in run.violations if x]) > 6:
+                    return
+    run.sample({"op2 blocks": files[-1][0], "directory(token idx)": files[-1][2]})
+    # shipped op2 files: tokenise; directory must tile the file and agree with the token-level block structure
+    for f in sorted(glob.glob(os.path.join(REPO, "pyyeti/tests/nastran_op2_data/*.op2"))):
+        base = os.path.basename(f)
+        data = open(f, "rb").read()
+        run.case(("shipped-op2", base), part="shipped op2 files")
+        try:
+            E, ib, recs = P2.records(data)
+        except P2.FormatError as ex:
+            run.violation("shipped op2 file is not a sequence of Fortran records: %s" % ex, {"file": base}, {"kind": "op2"})
+            continue
+        try:
+            o2 = op2.OP2(f)
+            o2.directory(verbose=False)
+            starts, stops = [int(x) for x in o2.dbstarts], [int(x) for x in o2.dbstops]
+            o2._fileh.close()
+        except Exception as ex:
+            run.violation("directory() of shipped file raised %r" % ex, {"file": base}, {"kind": "op2"})
+            continue
+        offsets = set(off for off, _ in recs) | {len(data)}
+        ok = all(s in offsets for s in starts) and all(s in offsets for s in stops) and starts[1:] == stops[:-1] and stops[-1] in (len(data), len(data) - 8 - ib)   # an end-of-file key 0 may follow the last block
+        if not ok:
+            run.violation("directory byte ranges of shipped file do not tile it on record boundaries", {"file": base, "starts": starts, "stops": stops,
+                          "size": len(data)}, {"kind": "op2"})
+        run.trace_validated()
